@@ -4,8 +4,9 @@ from concurrent.futures import ThreadPoolExecutor
 import common
 from common import hexs
 
-TRANSLATORS = ['t_interp']
-TRUSTED = ['translator t_interp.py (regex on interpolate.c for the depth limit)',
+TRANSLATORS = ['t_interp', 't_interpsrc']
+TRUSTED = ['translators t_interp.py (regex on interpolate.c for the depth limit) and t_interpsrc.py (token-for-token match of interpolate_inner, '
+           'interpolate and the line loop of interpolate_file: characters, order of tests, IGNORE branch, depth bookkeeping, diagnostics)',
            'modelled, not verified: strchr/strlen, the arena and buffer under interpolate.c, read of /dev/stdin, printf("%s")',
            'the lookup callback is a pure function of the name in the model (config lookups with side effects are C08\'s subject)']
 
@@ -21,7 +22,8 @@ def gen_text(rng, names, maxlen=6):
         if k < 0.45:
             out += b'${' + rng.choice(names) + b'}'
         elif k < 0.50:
-            out += rng.choice([b'$', b'${', b'${}', b'$}', b'}', b'{', b'$$', b'${a${b}}', b'$ {a}', b'${a', b'$\n'])
+            out += rng.choice([b'$', b'${', b'${}', b'$}', b'}', b'{', b'$$', b'${a${b}}', b'$ {a}', b'${a', b'$\n', b'${zz}', b'${zz}${a}',
+                               b'x\x00${', b'\x00', b'${a\x00}'])
         elif k < 0.57:
             out += b'\n'
         else:
@@ -202,7 +204,7 @@ def run(ctx, n=None):
         limit = 5
     n = n or ctx.budget(1200, 40000)
     cases = [c for c in load_corpus() if 'ignore' not in c] + [gen_case(ctx.rng) for _ in range(n)]
-    cases = [c for c in cases if argv_ok(c) and b'\0' not in bytes.fromhex(c['template'])]
+    cases = [c for c in cases if argv_ok(c)]   # a NUL in the template (stdin) cuts that line: modelled by clines
     res.samples = cases[:3]
     impl = None
     for i in range(0, len(cases), 10000):
